@@ -477,6 +477,73 @@ func runC06(h *H) {
 			}
 		}
 	}
+	// LowCardinality, field by field: every key width with boundary key values, meta bits, dictionary and
+	// key counts that disagree with what follows (built with the library's own Buffer primitives)
+	lcSpecs := []c14ColSpec{{typ: "LowCardinality(String)"}, {typ: "LowCardinality(UInt16)"}, {typ: "Array(LowCardinality(String))"}}
+	for i := 0; i < h.N/20+40; i++ {
+		s := lcSpecs[h.R.Intn(2)]
+		col, _ := s.build()
+		ty, _, _ := colDump(col)
+		d := 1 + h.R.Intn(4)    // dictionary entries on the wire
+		rows := 1 + h.R.Intn(3) // rows
+		k := h.R.Intn(4)        // key width 2^k bytes
+		var b proto.Buffer
+		b.PutInt64(1) // state: key serialization version
+		meta := int64(0x0600) | int64(k)
+		switch h.R.Intn(8) {
+		case 0:
+			meta = int64(k) // additional-keys bit missing
+		case 1:
+			meta |= 0x0100 // global dictionary bit
+		case 2:
+			meta = int64(0x0600) | int64(4+h.R.Intn(250)) // invalid key type
+		}
+		b.PutInt64(meta)
+		idxRows := int64(d)
+		switch h.R.Intn(8) {
+		case 0:
+			idxRows = int64(d + 1)
+		case 1:
+			idxRows = []int64{0, -1, 1 << 40, 100000001}[h.R.Intn(4)]
+		}
+		b.PutInt64(idxRows)
+		for j := 0; j < d; j++ {
+			if s.typ == "LowCardinality(String)" {
+				b.PutString(strconv.Itoa(j))
+			} else {
+				b.PutUInt16(uint16(j))
+			}
+		}
+		keyRows := int64(rows)
+		if h.R.Intn(8) == 0 {
+			keyRows = []int64{0, -1, int64(rows + 1), 1 << 40}[h.R.Intn(4)]
+		}
+		b.PutInt64(keyRows)
+		for j := 0; j < rows; j++ {
+			var kv uint64
+			switch h.R.Intn(6) {
+			case 0:
+				kv = uint64(d) // first key beyond the dictionary
+			case 1:
+				kv = 1<<(8*(uint(1)<<uint(k))-1) + uint64(h.R.Intn(3)) // top bit of the key width set
+			case 2:
+				kv = ^uint64(0) >> (64 - 8*(uint(1)<<uint(k))) // all ones
+			default:
+				kv = uint64(h.R.Intn(d))
+			}
+			switch k {
+			case 0:
+				b.PutUInt8(uint8(kv))
+			case 1:
+				b.PutUInt16(uint16(kv))
+			case 2:
+				b.PutUInt32(uint32(kv))
+			default:
+				b.PutUInt64(kv)
+			}
+		}
+		try(s, ty, rows, b.Buf, "lcfield")
+	}
 	if pend != nil {
 		pend.Truncate(0)
 	}
@@ -723,5 +790,122 @@ func runC06Msg(h *H) {
 			}
 			h.Stat("msgmut." + m.name)
 		}
+	}
+}
+
+// C01, documented type equivalences at block level: a column encoded under an equivalent spelling of its type
+// (proto.Alias) must decode - into the typed column and through Results.Auto - to the same rows.  The width of
+// Decimal(P, S) by precision class (1-9: 32, 10-18: 64, 19-38: 128, 39-76: 256 bits) is ClickHouse's documented
+// storage rule, not something read from the library.
+func init() { runners["c01alias"] = runC01Alias }
+
+func runC01Alias(h *H) {
+	type mk func() proto.Column
+	classes := []struct {
+		lo, hi int
+		mk     mk
+	}{
+		{1, 9, func() proto.Column { return new(proto.ColDecimal32) }},
+		{10, 18, func() proto.Column { return new(proto.ColDecimal64) }},
+		{19, 38, func() proto.Column { return new(proto.ColDecimal128) }},
+		{39, 76, func() proto.Column { return new(proto.ColDecimal256) }},
+	}
+	type alias struct {
+		typ string
+		mk  mk
+	}
+	var pool []alias
+	for _, c := range classes {
+		for _, p := range []int{c.lo, c.lo + 1, (c.lo + c.hi) / 2, c.hi - 1, c.hi} {
+			for _, sp := range []string{"Decimal(%d, %d)", "Decimal(%d,%d)", "Decimal(%d ,  %d)"} {
+				pool = append(pool, alias{fmt.Sprintf(sp, p, h.R.Intn(p+1)), c.mk})
+			}
+			pool = append(pool, alias{fmt.Sprintf("Decimal(%d)", p), c.mk})
+		}
+	}
+	pool = append(pool,
+		alias{"Decimal32(4)", classes[0].mk}, alias{"Decimal64(10)", classes[1].mk}, alias{"Decimal128(20)", classes[2].mk}, alias{"Decimal256(40)", classes[3].mk},
+		alias{"Enum8('a' = 1, 'b' = 2)", func() proto.Column { return new(proto.ColInt8) }},
+		alias{"Enum16('x' = 1000, 'y' = -5)", func() proto.Column { return new(proto.ColInt16) }},
+		alias{"DateTime('UTC')", func() proto.Column { return new(proto.ColDateTime) }},
+		alias{"DateTime('Europe/Berlin')", func() proto.Column { return new(proto.ColDateTime) }},
+		alias{"DateTime64(3, 'UTC')", func() proto.Column { return new(proto.ColDateTime64).WithPrecision(proto.PrecisionMilli) }},
+	)
+	revs := []int{proto.Version, int(proto.FeatureCustomSerialization) - 1, int(proto.FeatureBlockInfo) - 1}
+	for i := 0; i < h.N; i++ {
+		a := pool[i%len(pool)]
+		rev := revs[h.R.Intn(len(revs))]
+		rows := []int{1, 2, 5}[h.R.Intn(3)]
+		src := a.mk()
+		spec := c14ColSpec{strPool: []string{"a", "b"}}
+		switch c := src.(type) {
+		case *proto.ColInt8: // Enum8 spelling: only values that are members
+			for j := 0; j < rows; j++ {
+				c.Append([]int8{1, 2}[h.R.Intn(2)])
+			}
+		case *proto.ColInt16:
+			for j := 0; j < rows; j++ {
+				c.Append([]int16{1000, -5}[h.R.Intn(2)])
+			}
+		default:
+			if err := c14Fill(src, rows, rand.New(rand.NewSource(h.R.Int63())), spec); err != nil {
+				h.Stat("alias.skipped")
+				continue
+			}
+		}
+		tail := new(proto.ColStr)
+		for j := 0; j < rows; j++ {
+			tail.Append(strconv.Itoa(j))
+		}
+		var buf proto.Buffer
+		blk := proto.Block{Columns: 2, Rows: rows}
+		name := fmt.Sprintf("alias %q rev=%d rows=%d", a.typ, rev, rows)
+		if err := blk.EncodeBlock(&buf, rev, []proto.InputColumn{{Name: "v", Data: proto.Alias(src, proto.ColumnType(a.typ))}, {Name: "s", Data: tail}}); err != nil {
+			h.Emit(name, "-", "FAIL:encode of an aliased column failed: "+sanitize(err.Error()))
+			continue
+		}
+		oracle := "ok"
+		check := func(kind string, target proto.Result, got func() (proto.Column, proto.Column)) {
+			defer func() {
+				if p := recover(); p != nil {
+					oracle = fmt.Sprintf("FAIL:%s decode of %s panicked: %v", kind, a.typ, p)
+				}
+			}()
+			r := proto.NewReader(bytes.NewReader(buf.Buf))
+			var b2 proto.Block
+			if err := b2.DecodeBlock(r, rev, target); err != nil {
+				oracle = fmt.Sprintf("FAIL:%s decode of a block whose column is spelled %s was rejected: %s", kind, a.typ, sanitize(err.Error()))
+				return
+			}
+			rest, _ := io.ReadAll(r)
+			v, s := got()
+			switch {
+			case len(rest) != 0:
+				oracle = fmt.Sprintf("FAIL:%s decode of %s left %d bytes of the block unread", kind, a.typ, len(rest))
+			case b2.Rows != rows || v.Rows() != rows || s.Rows() != rows:
+				oracle = fmt.Sprintf("FAIL:%s decode of %s: row counts differ", kind, a.typ)
+			case !sameRows(tail, s):
+				oracle = fmt.Sprintf("FAIL:%s decode of %s: the following column's rows differ", kind, a.typ)
+			default:
+				if _, b1, e1 := encodeCol(src, nil); e1 == nil {
+					if _, b2b, e2 := encodeCol(v, nil); e2 != nil || !bytes.Equal(b1, b2b) {
+						oracle = fmt.Sprintf("FAIL:%s decode of %s: decoded values differ from the encoded ones", kind, a.typ)
+					}
+				}
+			}
+		}
+		typedV, typedS := a.mk(), new(proto.ColStr)
+		check("typed", proto.Results{{Name: "v", Data: typedV}, {Name: "s", Data: typedS}}, func() (proto.Column, proto.Column) { return typedV, typedS })
+		if oracle == "ok" {
+			var auto proto.Results
+			check("auto", auto.Auto(), func() (proto.Column, proto.Column) {
+				if len(auto) != 2 {
+					return new(proto.ColNothing), new(proto.ColNothing)
+				}
+				return auto[0].Data.(proto.Column), auto[1].Data.(proto.Column)
+			})
+		}
+		h.Emit(name, "-", oracle)
+		h.Stat("alias.block")
 	}
 }
